@@ -344,9 +344,10 @@ fn emit_logs(_key: &str, _inv: usize, _phase: &str, n: usize) {
                 id: id.clone(),
             });
             if LOG_AT_WARN.with(std::cell::Cell::get) {
-                tracing::warn!("[{id}]");
+                tracing::warn!("[{id}] with__double__underscores {{braces}}");
             } else {
-                tracing::info!("[{id}]");
+                // (the text also carries the separator the collector frames messages with)
+                tracing::info!("[{id}] with__double__underscores {{braces}}");
             }
         }
     }
